@@ -46,6 +46,11 @@ def curated():
     c["neg-linreg"] = S(N("S", "Source", pol="neg", only=()), N("G", "LinReg", "S", pol="neg"), N("L", "RLoad", "G"))
     c["neg-switch-rloss"] = S(N("S", "Source", pol="neg", only=()), N("W", "PSwitch", "S"), N("R", "RLoss", "W"), N("L", "ILoad", "R"))
     c["dead-src-conv"] = S(N("S", "Source", pol="nonneg"), N("C", "Converter", "S"), N("L1", "PLoad", "C"), N("L2", "RLoad", "S"))
+    c["tables-chain"] = S(N("S", "Source"), N("C", "Converter", "S", form="t1x2"), N("G", "LinReg", "C", form="t1x2"), N("L", "ILoad", "G"))
+    c["vloss-table"] = S(N("S", "Source"), N("V", "VLoss", "S", form="t1x2"), N("D", "RectD", "V", form="t1x2"), N("L", "PLoad", "D"))
+    c["opaque-conv"] = S(N("S", "Source"), N("C", "Converter", "S", form="opaque"), N("L", "PLoad", "C"))
+    c["opaque-neg-switch"] = S(N("S", "Source", pol="neg", only=()), N("W", "PSwitch", "S", form="opaque"), N("G", "LinReg", "W", form="opaque", pol="neg"),
+                               N("L", "ILoad", "G"))
     c["src-leaf-mix"] = S(N("S", "Source"), N("L1", "PLoad", "S"), N("W", "PSwitch", "S"), N("L2", "ILoad", "W"), N("L3", "RLoad", "W"))
     return c
 
